@@ -510,3 +510,650 @@ Lemma share_float_trace_refuted :
   count_ej (eps st) = 29 /\ len (eps st) = 50 /\ exact_share_ge 29 50 58 = true /\
   count_ej (eps (step 50 st [3])) = 30.
 Proof. vm_compute. repeat split. Qed.
+
+(* ====================================================================================
+   Composition through fire: what one interval does to every endpoint, for all states
+   ==================================================================================== *)
+
+Lemma find_F2_back (P : ep -> ep -> Prop) id : forall l l',
+  Forall2 (fun p p' => fst p' = fst p /\ P (snd p) (snd p')) l l' ->
+  forall e', find id l' = Some e' -> exists e, find id l = Some e /\ P e e'.
+Proof.
+  induction 1 as [|[i e] [i' e'] l l' [Hf HP] F IH]; cbn; intros x H; [discriminate|].
+  cbn in Hf. subst i'. destruct (i =? id); [injection H as <-; eauto | auto].
+Qed.
+Lemma find_F2_fwd (P : ep -> ep -> Prop) id : forall l l',
+  Forall2 (fun p p' => fst p' = fst p /\ P (snd p) (snd p')) l l' ->
+  forall e, find id l = Some e -> exists e', find id l' = Some e' /\ P e e'.
+Proof.
+  induction 1 as [|[i e] [i' e'] l l' [Hf HP] F IH]; cbn; intros x H; [discriminate|].
+  cbn in Hf. subst i'. destruct (i =? id); [injection H as <-; eauto | auto].
+Qed.
+Lemma In_F2_back {A} (R : A -> A -> Prop) : forall l l', Forall2 R l l' ->
+  forall p', In p' l' -> exists p, In p l /\ R p p'.
+Proof.
+  induction 1 as [|a b l l' HR F IH]; cbn; intros p' H; [contradiction|].
+  destruct H as [<- | H]; [eauto | destruct (IH _ H) as [p [Hp HR']]; eauto].
+Qed.
+Lemma F2_length {A} (R : A -> A -> Prop) l l' : Forall2 R l l' -> length l = length l'.
+Proof. induction 1; cbn; auto. Qed.
+
+Lemma find_swapped id sm : find id (swapped sm) = option_map swap_ep (find id (eps sm)).
+Proof.
+  unfold swapped. induction (eps sm) as [|[i e] r IH]; cbn; [reflexivity|].
+  destruct (i =? id); [reflexivity | exact IH].
+Qed.
+
+(* relations on endpoints (ids are preserved positionally) *)
+Definition prel (crit : ep -> bool) (t : Z) (e e' : ep) : Prop :=
+  e' = e \/ (e' = eject_ep t e /\ crit e = true).
+Definition srel (c : conf) (t : Z) (e e' : ep) : Prop :=
+  match ej e with
+  | Some t0 => if t0 + eject_span c (mult e) <? t then e' = uneject_ep e else e' = e
+  | None => ej e' = None
+  end.
+
+Definition crit1 (c : conf) (l0 : list (Z * ep)) (e : ep) : bool :=
+  sr_on c && negb (len (considered (sr_vol c) l0) <? sr_min c) && sr_crit c (considered (sr_vol c) l0) e.
+Definition crit2 (c : conf) (e : ep) : bool := fp_on c && fp_crit c e.
+
+Lemma pass_rel_prel crit crit' enf n mx t k k' l l' :
+  (forall e, crit e = true -> crit' e = true) ->
+  Forall2 (pass_rel crit enf n mx t k k') l l' ->
+  Forall2 (fun p p' => fst p' = fst p /\ prel crit' t (snd p) (snd p')) l l' /\
+  (l' <> l -> k' <> k).
+Proof.
+  intros Hc F. split.
+  - eapply F2_impl; [|exact F]. intros a b [Hf [Hs | [Hs [Hcr _]]]]; split; auto; [left | right]; auto.
+  - intros Hne Hk. apply Hne. clear Hne. induction F as [|[i e] [i' e'] l l' [Hf Hs] F IH]; [reflexivity|].
+    cbn in Hf, Hs. subst i'. destruct Hs as [-> | [_ [_ [_ [kk [Hkk _]]]]]]; [f_equal; exact IH | lia].
+Qed.
+
+Lemma F2_refl_prel crit t l :
+  Forall2 (fun p p' : Z * ep => fst p' = fst p /\ prel crit t (snd p) (snd p')) l l.
+Proof. induction l; constructor; auto. split; [reflexivity | left; reflexivity]. Qed.
+
+(* the stages of one interval *)
+Lemma fire_stages c sm :
+  let t := now sm in let l0 := swapped sm in let n := len (eps sm) in
+  exists k1 l1 l2 l3,
+    Forall2 (fun p p' => fst p' = fst p /\ prel (crit1 c l0) t (snd p) (snd p')) l0 l1 /\
+    (l1 <> l0 -> share_ge (numej sm) n (maxpct c) = false) /\
+    (k1 <> numej sm -> share_ge (numej sm) n (maxpct c) = false) /\
+    Forall2 (fun p p' => fst p' = fst p /\ prel (crit2 c) t (snd p) (snd p')) l1 l2 /\
+    (l2 <> l1 -> share_ge k1 n (maxpct c) = false) /\
+    Forall2 (fun p p' => fst p' = fst p /\ srel c t (snd p) (snd p')) l2 l3 /\
+    eps (fire c sm) = l3 /\ now (fire c sm) = t /\ tstart (fire c sm) = Some t /\
+    deadline (fire c sm) = Some (t + interval c) /\ cfg (fire c sm) = Some c.
+Proof.
+  intros t l0 n. unfold fire. fold (swapped sm). fold l0.
+  assert (Hn : len l0 = n) by (unfold l0, swapped, len, n; rewrite map_length; reflexivity).
+  rewrite Hn.
+  set (r1 := if sr_on c then
+      let L := considered (sr_vol c) l0 in
+      if len L <? sr_min c then (numej sm, gD sm, l0)
+      else pass (sr_crit c L) (sr_enf c) n (maxpct c) (now sm) (numej sm) (gD sm) l0
+    else (numej sm, gD sm, l0)).
+  assert (H1 : let '(k1, g1, l1) := r1 in
+     Forall2 (fun p p' => fst p' = fst p /\ prel (crit1 c l0) t (snd p) (snd p')) l0 l1 /\
+     (l1 <> l0 -> share_ge (numej sm) n (maxpct c) = false) /\
+     (k1 <> numej sm -> share_ge (numej sm) n (maxpct c) = false)).
+  { unfold r1. destruct (sr_on c) eqn:Eon.
+    2:{ split; [apply F2_refl_prel | split; congruence]. }
+    cbv zeta. destruct (len (considered (sr_vol c) l0) <? sr_min c) eqn:Emin.
+    { split; [apply F2_refl_prel | split; congruence]. }
+    destruct (pass _ _ _ _ _ _ _ l0) as [[k1 g1] l1] eqn:E.
+    pose proof (pass_spec _ _ _ _ _ _ _ _ _ _ _ E) as F.
+    destruct (pass_rel_prel _ (crit1 c l0) _ _ _ _ _ _ _ _
+                (fun e H => ltac:(unfold crit1; rewrite Eon, Emin; exact H)) F) as [F' Hk].
+    split; [exact F'|]. split.
+    - intros Hne. eapply pass_first; [exact E | apply Hk; exact Hne].
+    - intros Hne. eapply pass_first; [exact E | exact Hne]. }
+  destruct r1 as [[k1 g1] l1]. destruct H1 as [F1 [S1 K1]].
+  set (r2 := if fp_on c then
+      let L := considered (fp_vol c) l1 in
+      if len L <? fp_min c then (k1, g1, l1)
+      else pass (fp_crit c) (fp_enf c) n (maxpct c) (now sm) k1 g1 l1
+    else (k1, g1, l1)).
+  assert (H2 : let '(k2, g2, l2) := r2 in
+     Forall2 (fun p p' => fst p' = fst p /\ prel (crit2 c) t (snd p) (snd p')) l1 l2 /\
+     (l2 <> l1 -> share_ge k1 n (maxpct c) = false)).
+  { unfold r2. destruct (fp_on c) eqn:Eon.
+    2:{ split; [apply F2_refl_prel | congruence]. }
+    cbv zeta. destruct (len (considered (fp_vol c) l1) <? fp_min c).
+    { split; [apply F2_refl_prel | congruence]. }
+    destruct (pass _ _ _ _ _ _ _ l1) as [[k2 g2] l2] eqn:E.
+    pose proof (pass_spec _ _ _ _ _ _ _ _ _ _ _ E) as F.
+    destruct (pass_rel_prel _ (crit2 c) _ _ _ _ _ _ _ _
+                (fun e H => ltac:(unfold crit2; rewrite Eon; exact H)) F) as [F' Hk].
+    split; [exact F'|]. intros Hne. eapply pass_first; [exact E | apply Hk; exact Hne]. }
+  destruct r2 as [[k2 g2] l2]. destruct H2 as [F2 S2].
+  destruct (sweep c (now sm) l2) as [u l3] eqn:E3.
+  pose proof (sweep_spec _ _ _ _ _ E3) as F3.
+  exists k1, l1, l2, l3. cbn.
+  repeat (split; [assumption|]). split; [|auto].
+  eapply F2_impl; [|exact F3]. intros a b [Hf Hs]. split; [exact Hf|].
+  unfold srel. destruct (ej (snd a)); [exact Hs | tauto].
+Qed.
+
+Lemma eject_neq t e : eject_ep t e <> e.
+Proof. intros H. assert (X : mult (eject_ep t e) = mult e) by (rewrite H; reflexivity). cbn in X. lia. Qed.
+
+Lemma crit2_eject c t e : crit2 c (eject_ep t e) = crit2 c e.
+Proof. reflexivity. Qed.
+
+Definition ej_before (sm : state) : Prop :=
+  forall id e x, In (id, e) (eps sm) -> ej e = Some x -> x < now sm.
+
+(* an endpoint that carries the interval's time as ejection time after the interval failed
+   the test of an enabled algorithm on the swapped buckets, and the max_ejection_percent test
+   was negative for the counter the interval started with *)
+Lemma fire_ejected c sm id e3 : ej_before sm ->
+  find id (eps (fire c sm)) = Some e3 -> ej e3 = Some (now sm) ->
+  exists e0, find id (swapped sm) = Some e0 /\ crit_any c (swapped sm) e0 = true /\
+             share_ge (numej sm) (len (eps sm)) (maxpct c) = false.
+Proof.
+  intros Hlt Hf Hej.
+  destruct (fire_stages c sm) as [k1 [l1 [l2 [l3 [F1 [S1 [K1 [F2 [S2 [F3 [E3 _]]]]]]]]]]].
+  rewrite E3 in Hf.
+  destruct (find_F2_back _ _ _ _ F3 _ Hf) as [e2 [Hf2 R3]].
+  destruct (find_F2_back _ _ _ _ F2 _ Hf2) as [e1 [Hf1 R2]].
+  destruct (find_F2_back _ _ _ _ F1 _ Hf1) as [e0 [Hf0 R1]].
+  assert (He2 : e3 = e2 /\ ej e2 = Some (now sm)).
+  { unfold srel in R3. destruct (ej e2) as [t0|] eqn:E2; [|congruence].
+    destruct (t0 + eject_span c (mult e2) <? now sm); subst e3; [cbn in Hej; discriminate|].
+    split; [reflexivity | congruence]. }
+  destruct He2 as [-> He2]. exists e0. split; [exact Hf0|].
+  assert (Hl1 : e1 <> e0 -> l1 <> swapped sm) by (intros Hne Heq; rewrite Heq in Hf1; congruence).
+  assert (Hl2 : e2 <> e1 -> l2 <> l1) by (intros Hne Heq; rewrite Heq in Hf2; congruence).
+  unfold crit_any. fold (crit1 c (swapped sm) e0). fold (crit2 c e0).
+  destruct R1 as [-> | [-> C1]].
+  - destruct R2 as [-> | [-> C2]].
+    + exfalso. rewrite find_swapped in Hf0. destruct (find id (eps sm)) as [e|] eqn:Ee; [|discriminate].
+      cbn in Hf0. injection Hf0 as <-. cbn in He2. apply find_In in Ee.
+      specialize (Hlt _ _ _ Ee He2). lia.
+    + rewrite C2, orb_true_r. split; [reflexivity|].
+      specialize (S2 (Hl2 (eject_neq _ _))).
+      destruct (Z.eq_dec k1 (numej sm)) as [<- | Hk]; [exact S2 | exact (K1 Hk)].
+  - rewrite C1. split; [reflexivity|]. apply S1. apply Hl1. apply eject_neq.
+Qed.
+
+(* what one interval does to an endpoint that was ejected at t0 *)
+Lemma fire_uneject c sm id e t0 : ej_before sm ->
+  find id (eps sm) = Some e -> ej e = Some t0 ->
+  exists e3, find id (eps (fire c sm)) = Some e3 /\
+    match ej e3 with
+    | None => t0 + eject_span c (mult e3) < now sm
+    | Some x => x = now sm \/ (x = t0 /\ mult e3 = mult e /\ now sm <= t0 + eject_span c (mult e))
+    end.
+Proof.
+  intros Hlt Hf Hej.
+  destruct (fire_stages c sm) as [k1 [l1 [l2 [l3 [F1 [S1 [K1 [F2 [S2 [F3 [E3 _]]]]]]]]]]].
+  assert (Hf0 : find id (swapped sm) = Some (swap_ep e)) by (rewrite find_swapped, Hf; reflexivity).
+  destruct (find_F2_fwd _ _ _ _ F1 _ Hf0) as [e1 [Hf1 R1]].
+  destruct (find_F2_fwd _ _ _ _ F2 _ Hf1) as [e2 [Hf2 R2]].
+  destruct (find_F2_fwd _ _ _ _ F3 _ Hf2) as [e3 [Hf3 R3]].
+  exists e3. rewrite E3. split; [exact Hf3|].
+  pose proof (Hlt _ _ _ (find_In _ _ _ Hf) Hej) as Ht0.
+  assert (H2 : e2 = swap_ep e \/ ej e2 = Some (now sm)).
+  { destruct R1 as [-> | [-> _]]; destruct R2 as [-> | [-> _]]; auto. }
+  unfold srel in R3. destruct H2 as [-> | H2].
+  - cbn in R3. rewrite Hej in R3. destruct (t0 + eject_span c (mult e) <? now sm) eqn:El; subst e3; cbn.
+    + apply Z.ltb_lt in El. exact El.
+    + rewrite Hej. apply Z.ltb_ge in El. right. auto.
+  - rewrite H2 in R3. destruct (now sm + eject_span c (mult e2) <? now sm) eqn:El; subst e3.
+    + cbn. apply Z.ltb_lt in El. lia.
+    + rewrite H2. left. reflexivity.
+Qed.
+
+(* ---------- time invariant: ejection times lie before the next interval ---------- *)
+
+Record TInv (st : state) : Prop := mkTInv {
+  ti_now : 0 <= now st;
+  ti_ej : forall id e x, In (id, e) (eps st) -> ej e = Some x ->
+            0 <= x /\ exists ts, tstart st = Some ts /\ x <= ts;
+  ti_ts : forall ts, tstart st = Some ts -> 0 <= ts /\ forall d, deadline st = Some d -> ts < d;
+  ti_dl : forall d, deadline st = Some d -> exists ts, tstart st = Some ts;
+  ti_cfg : forall c, cfg st = Some c -> 1 <= interval c
+}.
+
+Lemma TInv_init : TInv init.
+Proof. constructor; cbn; intros; try discriminate; try contradiction; lia. Qed.
+
+Lemma fire_tinv c sm : 0 <= now sm -> 1 <= interval c ->
+  (forall id e x, In (id, e) (eps sm) -> ej e = Some x -> 0 <= x < now sm) ->
+  TInv (fire c sm).
+Proof.
+  intros Hnow Hiv Hlt.
+  destruct (fire_stages c sm) as [k1 [l1 [l2 [l3 [F1 [_ [_ [F2 [_ [F3 [E3 [En [Et [Ed Ec]]]]]]]]]]]]]].
+  constructor.
+  - rewrite En. exact Hnow.
+  - intros id e3 x Hin Hx. rewrite E3 in Hin. rewrite Et.
+    assert (G : x = now sm \/ 0 <= x < now sm).
+    { destruct (In_F2_back _ _ _ F3 _ Hin) as [[i2 e2] [Hin2 [_ R3]]].
+      destruct (In_F2_back _ _ _ F2 _ Hin2) as [[i1 e1] [Hin1 [_ R2]]].
+      destruct (In_F2_back _ _ _ F1 _ Hin1) as [[i0 e0] [Hin0 [_ R1]]].
+      cbn [snd] in *.
+      assert (Hx2 : ej e2 = Some x).
+      { unfold srel in R3. destruct (ej e2) as [t0|] eqn:E2; [|congruence].
+        destruct (t0 + eject_span c (mult e2) <? now sm); subst e3; [discriminate | congruence]. }
+      destruct R2 as [-> | [-> _]]; [|cbn in Hx2; left; congruence].
+      destruct R1 as [-> | [-> _]]; [|cbn in Hx2; left; congruence].
+      right. unfold swapped in Hin0. apply in_map_iff in Hin0. destruct Hin0 as [[i e] [He Hin0]].
+      cbn in He. injection He as <- <-. cbn in Hx2. eapply Hlt; eauto. }
+    split; [lia|]. exists (now sm). split; [reflexivity | lia].
+  - intros ts H. rewrite Et in H. injection H as <-. split; [exact Hnow|].
+    intros d Hd. rewrite Ed in Hd. injection Hd as <-. lia.
+  - intros d _. rewrite Et. eauto.
+  - intros c0 H. rewrite Ec in H. injection H as <-. exact Hiv.
+Qed.
+
+Lemma in_l1 ids l id e :
+  In (id, e) (map (fun id => (id, match find id l with Some e => e | None => fresh end)) ids) ->
+  In (id, e) l \/ e = fresh.
+Proof.
+  intros H. apply in_map_iff in H. destruct H as [i [He _]]. injection He as -> <-.
+  destruct (find id l) eqn:E; [left; apply find_In; exact E | right; reflexivity].
+Qed.
+
+Lemma config_tinv c ids st : TInv st -> 1 <= interval c -> TInv (config c ids st).
+Proof.
+  intros [Hnow Hej Hts Hdl Hcfg] Hiv. unfold config.
+  set (l1 := map (fun id => (id, match find id (eps st) with Some e => e | None => fresh end)) ids).
+  set (k := numej st - (count_ej (eps st) - count_ej l1)).
+  assert (Hl1 : forall id e x, In (id, e) l1 -> ej e = Some x -> In (id, e) (eps st)).
+  { intros id e x Hin Hx. destruct (in_l1 _ _ _ _ Hin) as [H | ->]; [exact H | discriminate]. }
+  destruct (noop c).
+  - destruct (noop_all l1) as [u l2] eqn:E. destruct (noop_all_spec _ _ _ E) as [_ [_ C]].
+    constructor; cbn; intros; try discriminate; auto.
+    + rewrite Forall_forall in C. destruct (C _ H) as [C1 _]. cbn in C1. congruence.
+    + injection H as <-. exact Hiv.
+  - destruct (tstart st) as [t0|] eqn:Ets.
+    + destruct (Hts t0 eq_refl) as [Ht0 Hd0].
+      set (rem := Z.max 0 (interval c - (now st - t0))).
+      set (st1 := mkst (now st) (Some c) l1 k (Some t0) (Some (now st + rem)) (gD st)).
+      assert (Hej1 : forall id e x, In (id, e) l1 -> ej e = Some x -> 0 <= x <= t0).
+      { intros id e x Hin Hx. destruct (Hej _ _ _ (Hl1 _ _ _ Hin Hx) Hx) as [A [ts [B C]]].
+        injection B as <-. lia. }
+      destruct (Z.eqb_spec rem 0) as [Er | Er].
+      * apply fire_tinv; cbn; auto. intros id e x Hin Hx.
+        specialize (Hej1 _ _ _ Hin Hx). unfold rem in Er. lia.
+      * constructor; cbn; auto.
+        -- intros id e x Hin Hx. specialize (Hej1 _ _ _ Hin Hx). split; [lia|]. exists t0. split; [reflexivity | lia].
+        -- intros ts H. injection H as <-. split; [exact Ht0|]. intros d Hd. injection Hd as <-.
+           unfold rem. lia.
+        -- intros; eauto.
+        -- intros c0 H. injection H as <-. exact Hiv.
+    + constructor; cbn; auto.
+      * intros id e x Hin Hx. exfalso. apply in_map_iff in Hin. destruct Hin as [[i e0] [He Hin]].
+        cbn in He. injection He as <- <-. cbn in Hx.
+        destruct (Hej _ _ _ (Hl1 _ _ _ Hin Hx) Hx) as [_ [ts [B _]]]. discriminate.
+      * intros ts H. injection H as <-. split; [exact Hnow|]. intros d Hd. injection Hd as <-. lia.
+      * intros; eauto.
+      * intros c0 H. injection H as <-. exact Hiv.
+Qed.
+
+Lemma calls_tinv id ok n st : TInv st -> TInv (calls id ok n st).
+Proof.
+  intros [Hnow Hej Hts Hdl Hcfg]. constructor; cbn; auto.
+  intros i e x Hin Hx. apply in_map_iff in Hin. destruct Hin as [[i0 e0] [He Hin]].
+  cbn [fst snd] in He. destruct (i0 =? id).
+  - injection He as <- <-. apply (Hej i0 e0 x Hin).
+    unfold add_calls in Hx. destruct (ok =? 1); exact Hx.
+  - injection He as <- <-. eauto.
+Qed.
+
+Lemma set_now_tinv t st : 0 <= t -> TInv st -> TInv (set_now t st).
+Proof. intros Ht [Hnow Hej Hts Hdl Hcfg]. constructor; cbn; auto. Qed.
+
+Lemma decode_interval K w c ids : decode_config K w = Some (c, ids) -> 1 <= interval c.
+Proof.
+  unfold decode_config.
+  do 14 (destruct w as [|? w]; [discriminate|]).
+  destruct (_ && _) eqn:E; [|discriminate]. intros H. injection H as <- _. cbn.
+  repeat (apply andb_true_iff in E; destruct E as [E _]). apply Z.leb_le in E. exact E.
+Qed.
+
+Lemma step_tinv K st op : TInv st -> TInv (step K st op).
+Proof.
+  intros HI. unfold step.
+  destruct op as [|k r]; [exact HI|].
+  destruct (Z.eq_dec k 1) as [-> | N1].
+  { destruct (decode_config K r) as [[c ids]|] eqn:Ed; [|exact HI].
+    apply config_tinv; [exact HI | eapply decode_interval; eauto]. }
+  destruct (Z.eq_dec k 2) as [-> | N2].
+  { destruct r as [|id [|ok [|n [|x r]]]]; try exact HI.
+    destruct (_ && _); [apply calls_tinv; exact HI | exact HI]. }
+  destruct (Z.eq_dec k 3) as [-> | N3].
+  { destruct r as [|x r]; [|exact HI].
+    destruct (cfg st) as [c|] eqn:Ec; [|exact HI]. destruct (deadline st) as [d|] eqn:Ed; [|exact HI].
+    destruct HI as [Hnow Hej Hts Hdl Hcfg].
+    destruct (Hdl d Ed) as [ts Ets]. destruct (Hts ts Ets) as [Hts0 Htsd]. specialize (Htsd d Ed).
+    apply fire_tinv; cbn; [lia | auto |].
+    intros id e x Hin Hx. destruct (Hej _ _ _ Hin Hx) as [A [ts' [B C]]].
+    rewrite Ets in B. injection B as <-. lia. }
+  destruct (Z.eq_dec k 4) as [-> | N4].
+  { destruct r as [|d [|x r]]; try exact HI.
+    destruct ((0 <=? d) && (d <=? 100000)) eqn:Ed; [|exact HI].
+    apply andb_true_iff in Ed. destruct Ed as [Ed _]. apply Z.leb_le in Ed.
+    pose proof (ti_now _ HI) as Hn.
+    destruct (deadline st); apply set_now_tinv; auto; lia. }
+  destruct k as [|k|k]; try exact HI.
+  do 3 (destruct k as [k|k|]; try exact HI; try congruence).
+Qed.
+
+Lemma final_tinv K : forall ops st, TInv st -> TInv (final K st ops).
+Proof. induction ops as [|op r IH]; intros st HI; cbn; [exact HI | apply IH, step_tinv, HI]. Qed.
+Lemma reach_tinv K ops : TInv (final K init ops).
+Proof. apply final_tinv, TInv_init. Qed.
+
+(* an op that runs the interval algorithm: it runs on [sm] and no endpoint of [sm] carries
+   an ejection time at or after the interval's time *)
+Lemma fired_pre K st op c sm : TInv st -> fired K st op = Some (c, sm) ->
+  step K st op = fire c sm /\ ej_before sm /\
+  (forall id e x, In (id, e) (eps sm) -> ej e = Some x -> 0 <= x).
+Proof.
+  intros HI Hf. unfold fired in Hf. unfold step.
+  destruct op as [|k r]; [discriminate|].
+  destruct (Z.eq_dec k 1) as [-> | N1].
+  { destruct (decode_config K r) as [[c0 ids]|] eqn:Ed; [|discriminate].
+    destruct (noop c0) eqn:En; [discriminate|].
+    destruct (tstart st) as [t0|] eqn:Ets; [|discriminate].
+    destruct (Z.max 0 (interval c0 - (now st - t0)) =? 0) eqn:Er; [|discriminate].
+    injection Hf as <- <-. split; [|split].
+    - unfold config. rewrite En, Ets, Er. reflexivity.
+    - intros id e x Hin Hx. cbn in Hin |- *.
+      destruct (in_l1 _ _ _ _ Hin) as [H | ->]; [|discriminate].
+      destruct HI as [Hnow Hej Hts Hdl Hcfg]. destruct (Hej _ _ _ H Hx) as [_ [ts [B C]]].
+      rewrite Ets in B. injection B as <-. apply Z.eqb_eq in Er.
+      pose proof (decode_interval _ _ _ _ Ed). lia.
+    - intros id e x Hin Hx. cbn in Hin.
+      destruct (in_l1 _ _ _ _ Hin) as [H | ->]; [|discriminate].
+      destruct (ti_ej _ HI _ _ _ H Hx) as [A _]. exact A. }
+  destruct (Z.eq_dec k 3) as [-> | N3].
+  { destruct r as [|x r]; [|discriminate].
+    destruct (cfg st) as [c0|] eqn:Ec; [|discriminate]. destruct (deadline st) as [d|] eqn:Ed; [|discriminate].
+    injection Hf as <- <-. split; [reflexivity|]. split.
+    - intros id e x Hin Hx. cbn in Hin |- *.
+      destruct HI as [Hnow Hej Hts Hdl Hcfg]. destruct (Hej _ _ _ Hin Hx) as [_ [ts [B C]]].
+      destruct (Hts ts B) as [_ D]. specialize (D d Ed). lia.
+    - intros id e x Hin Hx. cbn in Hin. destruct (ti_ej _ HI _ _ _ Hin Hx) as [A _]. exact A. }
+  exfalso. destruct k as [|k|k]; try discriminate.
+  destruct k as [k|k|];
+    [destruct k as [k|k|]; try discriminate; congruence | destruct k; discriminate | congruence].
+Qed.
+
+(* ---------- ops that do not run the interval algorithm never eject ---------- *)
+
+Lemma find_map_keep (f : Z * ep -> Z * ep) id :
+  (forall p, fst (f p) = fst p) -> (forall p, ej (snd (f p)) = ej (snd p)) ->
+  forall l e', find id (map f l) = Some e' -> exists e, find id l = Some e /\ ej e = ej e'.
+Proof.
+  intros Hf He. induction l as [|[i e] r IH]; cbn [map find]; intros e' H; [discriminate|].
+  specialize (Hf (i, e)). specialize (He (i, e)). destruct (f (i, e)) as [i' e1]. cbn in Hf, He. subst i'.
+  destruct (i =? id); [injection H as <-; eauto | auto].
+Qed.
+
+Lemma find_l1 (g : Z -> ep) id : forall ids e, find id (map (fun i => (i, g i)) ids) = Some e -> e = g id.
+Proof.
+  induction ids as [|i r IH]; cbn; intros e H; [discriminate|].
+  destruct (Z.eqb_spec i id); [injection H as <-; subst; reflexivity | auto].
+Qed.
+
+Lemma nofire_ej K st op id e' x : fired K st op = None ->
+  find id (eps (step K st op)) = Some e' -> ej e' = Some x ->
+  exists e, find id (eps st) = Some e /\ ej e = Some x.
+Proof.
+  intros Hf. unfold fired in Hf. unfold step.
+  assert (Triv : find id (eps st) = Some e' -> ej e' = Some x ->
+                 exists e, find id (eps st) = Some e /\ ej e = Some x) by eauto.
+  destruct op as [|k r]; [exact Triv|].
+  destruct (Z.eq_dec k 1) as [-> | N1].
+  { destruct (decode_config K r) as [[c ids]|] eqn:Ed; [|exact Triv].
+    unfold config.
+    set (g := fun i => match find i (eps st) with Some e => e | None => fresh end).
+    assert (G : forall e1, find id (map (fun i => (i, g i)) ids) = Some e1 -> ej e1 = Some x ->
+                exists e, find id (eps st) = Some e /\ ej e = Some x).
+    { intros e1 H1 Hx. apply find_l1 in H1. subst e1. unfold g in Hx.
+      destruct (find id (eps st)) as [e|]; [eauto | discriminate]. }
+    destruct (noop c) eqn:En.
+    - destruct (noop_all _) as [u l2] eqn:E. destruct (noop_all_spec _ _ _ E) as [_ [_ C]].
+      cbn. intros H Hx. apply find_In in H. rewrite Forall_forall in C. destruct (C _ H) as [C1 _].
+      cbn in C1. congruence.
+    - destruct (tstart st) as [t0|] eqn:Ets.
+      + destruct (Z.max 0 (interval c - (now st - t0)) =? 0) eqn:Er; [discriminate|].
+        cbn. exact (G e').
+      + cbn. intros H Hx.
+        destruct (find_map_keep (fun p => (fst p, clear_ep (snd p))) id
+                    (fun p => eq_refl) (fun p => eq_refl) _ _ H) as [e1 [H1 He1]].
+        apply (G e1 H1). congruence. }
+  destruct (Z.eq_dec k 2) as [-> | N2].
+  { destruct r as [|i0 [|ok [|n [|y r]]]]; try exact Triv.
+    destruct (_ && _); [|exact Triv]. cbn. intros H Hx.
+    assert (A1 : forall p : Z * ep, fst (if fst p =? i0 then (fst p, add_calls ok n (snd p)) else p) = fst p)
+      by (intros p; destruct (fst p =? i0); reflexivity).
+    assert (A2 : forall p : Z * ep, ej (snd (if fst p =? i0 then (fst p, add_calls ok n (snd p)) else p)) = ej (snd p)).
+    { intros p. destruct (fst p =? i0); [|reflexivity]. cbn. unfold add_calls. destruct (ok =? 1); reflexivity. }
+    destruct (find_map_keep _ id A1 A2 _ _ H) as [e1 [H1 He1]].
+    exists e1. split; [exact H1 | congruence]. }
+  destruct (Z.eq_dec k 3) as [-> | N3].
+  { destruct r as [|y r]; [|exact Triv].
+    destruct (cfg st); [|exact Triv]. destruct (deadline st); [discriminate | exact Triv]. }
+  destruct (Z.eq_dec k 4) as [-> | N4].
+  { destruct r as [|d [|y r]]; try exact Triv.
+    destruct (_ && _); [|exact Triv]. destruct (deadline st); exact Triv. }
+  destruct k as [|k|k]; try exact Triv.
+  do 3 (destruct k as [k|k|]; try exact Triv; try congruence).
+Qed.
+
+(* ---------- reading an observation of the model ---------- *)
+
+Lemma o_present_obs K st id : 0 <= id < K ->
+  o_present (obs_of K st) id = match find id (eps st) with Some _ => true | None => false end.
+Proof. intros H. unfold o_present. rewrite o_field_obs by lia. unfold ep_obs. destruct (find id (eps st)); reflexivity. Qed.
+Lemma o_ejat_obs K st id : 0 <= id < K ->
+  o_ejat (obs_of K st) id =
+  match find id (eps st) with Some e => match ej e with Some t => t | None => -1 end | None => -1 end.
+Proof. intros H. unfold o_ejat. rewrite o_field_obs by lia. unfold ep_obs. destruct (find id (eps st)); reflexivity. Qed.
+Lemma o_mult_obs K st id : 0 <= id < K ->
+  o_mult (obs_of K st) id = match find id (eps st) with Some e => mult e | None => 0 end.
+Proof. intros H. unfold o_mult. rewrite o_field_obs by lia. unfold ep_obs. destruct (find id (eps st)); reflexivity. Qed.
+
+Lemma ejected_now_obs K st id t : 0 <= id < K -> 0 <= t ->
+  ejected_now (obs_of K st) t id = true ->
+  exists e, find id (eps st) = Some e /\ ej e = Some t.
+Proof.
+  intros H Ht. unfold ejected_now. rewrite o_present_obs, o_ejat_obs by lia.
+  destruct (find id (eps st)) as [e|]; [|discriminate]. cbn.
+  destruct (ej e) as [x|] eqn:Ee; intros E; apply Z.eqb_eq in E; [subst; eauto | lia].
+Qed.
+
+Lemma fire_now c sm : now (fire c sm) = now sm.
+Proof. destruct (fire_stages c sm) as [k1 [l1 [l2 [l3 [_ [_ [_ [_ [_ [_ [_ [En _]]]]]]]]]]]]. exact En. Qed.
+
+(* ---------- clauses 1-3 on every model trace ---------- *)
+
+Lemma cl1_true K st op : 0 <= K -> TInv st ->
+  cl1 K (fired K st op) (obs_of K st) (obs_of K (step K st op)) = true.
+Proof.
+  intros HK HT. pose proof (step_tinv K st op HT) as HT'. pose proof (ti_now _ HT') as Hn'.
+  unfold cl1. change (nth 1 (obs_of K (step K st op)) 0) with (now (step K st op)).
+  destruct (fired K st op) as [[c sm]|] eqn:Ef.
+  - destruct (fired_pre K st op c sm HT Ef) as [Es [Hlt _]].
+    apply forallb_forall. intros id Hid. apply names_In in Hid.
+    destruct (ejected_now _ _ id) eqn:En; [|reflexivity].
+    destruct (ejected_now_obs _ _ _ _ Hid Hn' En) as [e3 [Hf3 He3]].
+    rewrite Es in Hf3, He3. rewrite fire_now in He3.
+    destruct (fire_ejected c sm id e3 Hlt Hf3 He3) as [e0 [Hf0 [Hc _]]].
+    rewrite Hf0. exact Hc.
+  - apply forallb_forall. intros id Hid. apply names_In in Hid.
+    destruct (ejected_now _ _ id) eqn:En; [|reflexivity].
+    destruct (ejected_now_obs _ _ _ _ Hid Hn' En) as [e' [Hf' He']].
+    destruct (nofire_ej K st op id e' _ Ef Hf' He') as [e [Hf He]].
+    rewrite o_ejat_obs by lia. rewrite Hf, He, Z.eqb_refl. reflexivity.
+Qed.
+
+Lemma cl2_true K st op : 0 <= K -> TInv st ->
+  cl2 K (fired K st op) (obs_of K (step K st op)) = true.
+Proof.
+  intros HK HT. pose proof (step_tinv K st op HT) as HT'. pose proof (ti_now _ HT') as Hn'.
+  unfold cl2. change (nth 1 (obs_of K (step K st op)) 0) with (now (step K st op)).
+  destruct (fired K st op) as [[c sm]|] eqn:Ef; [|reflexivity].
+  destruct (fired_pre K st op c sm HT Ef) as [Es [Hlt _]].
+  destruct (existsb _ (names K)) eqn:Ex; [|reflexivity].
+  apply existsb_exists in Ex. destruct Ex as [id [Hid En]]. apply names_In in Hid.
+  destruct (ejected_now_obs _ _ _ _ Hid Hn' En) as [e3 [Hf3 He3]].
+  rewrite Es in Hf3, He3. rewrite fire_now in He3.
+  destruct (fire_ejected c sm id e3 Hlt Hf3 He3) as [e0 [_ [_ Hs]]].
+  rewrite Hs. reflexivity.
+Qed.
+
+Lemma cl3_true K st op : 0 <= K -> TInv st ->
+  cl3 K (fired K st op) (obs_of K (step K st op)) = true.
+Proof.
+  intros HK HT. unfold cl3. change (nth 1 (obs_of K (step K st op)) 0) with (now (step K st op)).
+  destruct (fired K st op) as [[c sm]|] eqn:Ef; [|reflexivity].
+  destruct (fired_pre K st op c sm HT Ef) as [Es [Hlt Hnn]].
+  rewrite Es, fire_now.
+  apply forallb_forall. intros id Hid. apply names_In in Hid.
+  destruct (find id (eps sm)) as [e|] eqn:Hf; [|reflexivity].
+  unfold is_ej. destruct (ej e) as [t0|] eqn:Hej; [|reflexivity].
+  destruct (fire_uneject c sm id e t0 Hlt Hf Hej) as [e3 [Hf3 H3]].
+  pose proof (Hnn _ _ _ (find_In _ _ _ Hf) Hej) as Ht0.
+  pose proof (Hlt _ _ _ (find_In _ _ _ Hf) Hej) as Ht0'.
+  rewrite o_present_obs, o_ejat_obs, o_mult_obs by lia. rewrite Hf3. cbn [andb].
+  destruct (ej e3) as [x|].
+  - destruct (Z.eqb_spec x (now sm)) as [|Hx]; [reflexivity|]. cbn [negb].
+    destruct H3 as [-> | [-> [Hm Hle]]]; [congruence|].
+    rewrite Hm. replace (t0 =? -1) with false by (symmetry; apply Z.eqb_neq; lia).
+    replace (t0 + eject_span c (mult e) <? now sm) with false by (symmetry; apply Z.ltb_ge; lia).
+    reflexivity.
+  - destruct (Z.eqb_spec (-1) (now sm)); [reflexivity|]. cbn [negb].
+    apply Z.ltb_lt in H3. rewrite H3. reflexivity.
+Qed.
+
+Lemma all_clauses_true K st op i : 0 <= K -> Inv st -> TInv st ->
+  let st' := step K st op in
+  forallb (fun c => (8 <=? fst (fst c)) || snd c)
+          (clause_op K st st' (obs_of K st) op (obs_of K st') i) = true.
+Proof.
+  intros HK HI HT st'.
+  pose proof (covered_clauses_true K st op i HK HI) as Hc. fold st' in Hc.
+  pose proof (cl1_true K st op HK HT) as H1. pose proof (cl2_true K st op HK HT) as H2.
+  pose proof (cl3_true K st op HK HT) as H3. fold st' in H1, H2, H3.
+  unfold clause_op in *. rewrite obs_length in * by exact HK.
+  replace (3 + 6 * K <? 3 + 6 * K) with false in * by (symmetry; apply Z.ltb_irrefl).
+  cbn [forallb fst snd covered] in *. cbn [Z.eqb orb negb] in Hc.
+  change (8 <=? 1) with false. change (8 <=? 2) with false. change (8 <=? 3) with false.
+  change (8 <=? 4) with false. change (8 <=? 5) with false. change (8 <=? 6) with false.
+  change (8 <=? 7) with false. change (8 <=? 8) with true. change (8 <=? 9) with true.
+  change (8 <=? 10) with true. cbn [orb].
+  rewrite H1, H2, H3. cbn [andb].
+  repeat (apply andb_true_iff in Hc; destruct Hc as [? Hc]).
+  repeat (apply andb_true_iff; split); assumption || reflexivity.
+Qed.
+
+Lemma all_from_true K : 0 <= K -> forall ops st i, Inv st -> TInv st ->
+  forallb (fun c => (8 <=? fst (fst c)) || snd c)
+          (clauses_from K st (obs_of K st) i ops (run_from K st ops)) = true.
+Proof.
+  intros HK. induction ops as [|op r IH]; intros st i HI HT; cbn; [reflexivity|].
+  rewrite forallb_app. rewrite all_clauses_true by assumption. cbn.
+  apply IH; [apply step_inv | apply step_tinv]; assumption.
+Qed.
+
+Lemma model_trace_holds c ops : cfg_wf c = true ->
+  exists obs, run c ops = Some obs /\ holds_b c ops obs = true.
+Proof.
+  unfold cfg_wf, run, holds_b, clauses. destruct (cfg_K c) as [K|] eqn:E; [|discriminate].
+  intros _. exists (run_from K init ops). split; [reflexivity|].
+  assert (G : forall (f g : Z * Z * bool -> bool) l, forallb f l = true -> forallb f (filter g l) = true).
+  { intros f g l. induction l as [|a l IH]; cbn; [auto|]. intros H. apply andb_true_iff in H.
+    destruct H as [H1 H2]. destruct (g a); cbn; [rewrite H1; cbn|]; auto. }
+  assert (HK : 0 <= K).
+  { unfold cfg_K in E. destruct c as [|k [|]]; try discriminate.
+    destruct ((1 <=? k) && (k <=? 64)) eqn:E2; [|discriminate]. injection E as <-.
+    apply andb_true_iff in E2. destruct E2 as [E2 _]. apply Z.leb_le in E2. lia. }
+  rewrite forallb_app. rewrite !G; [reflexivity | |];
+    apply all_from_true; auto using Inv_init, TInv_init.
+Qed.
+
+(* ---------- the property's sentences for every history ---------- *)
+
+Lemma crit_any_spec c l0 e : crit_any c l0 e = true ->
+  let L := considered (sr_vol c) l0 in
+  (sr_on c = true /\ sr_min c <= len L /\ sr_vol c <= rv e /\ sr_fail (sr_stdev c) L e = true) \/
+  (fp_on c = true /\ fp_vol c <= rv e /\ fp_fail (fp_thr c) e = true).
+Proof.
+  unfold crit_any. cbv zeta. intros H. apply orb_true_iff in H. destruct H as [H | H].
+  - left. apply andb_true_iff in H. destruct H as [H H3]. apply andb_true_iff in H. destruct H as [H1 H2].
+    apply negb_true_iff, Z.ltb_ge in H2. destruct (sr_crit_spec _ _ _ H3). auto.
+  - right. apply andb_true_iff in H. destruct H as [H1 H2]. destruct (fp_crit_spec _ _ H2). auto.
+Qed.
+
+Lemma fired_acct K st op c sm : Inv st -> fired K st op = Some (c, sm) ->
+  numej sm = count_ej (eps sm) + gD st.
+Proof.
+  intros [Ha _] Hf. unfold fired in Hf.
+  destruct op as [|k r]; [discriminate|].
+  destruct (Z.eq_dec k 1) as [-> | N1].
+  { destruct (decode_config K r) as [[c0 ids]|]; [|discriminate].
+    destruct (noop c0); [discriminate|]. destruct (tstart st) as [t0|]; [|discriminate].
+    destruct (_ =? 0); [|discriminate]. injection Hf as <- <-. cbn [numej eps]. lia. }
+  destruct (Z.eq_dec k 3) as [-> | N3].
+  { destruct r as [|x r]; [|discriminate].
+    destruct (cfg st); [|discriminate]. destruct (deadline st); [|discriminate].
+    injection Hf as <- <-. cbn [numej eps set_now]. exact Ha. }
+  exfalso. destruct k as [|k|k]; try discriminate.
+  destruct k as [k|k|];
+    [destruct k as [k|k|]; try discriminate; congruence | destruct k; discriminate | congruence].
+Qed.
+
+Lemma hist_no_ejection_outside_interval K ops op id e' x :
+  let st := final K init ops in let st' := step K st op in
+  fired K st op = None -> find id (eps st') = Some e' -> ej e' = Some x ->
+  exists e, find id (eps st) = Some e /\ ej e = Some x.
+Proof. intros st st'. apply nofire_ej. Qed.
+
+Lemma hist_eject_only_if K ops op c sm id e' :
+  let st := final K init ops in let st' := step K st op in
+  fired K st op = Some (c, sm) ->
+  find id (eps st') = Some e' -> ej e' = Some (now st') ->
+  exists e0, find id (swapped sm) = Some e0 /\
+    let L := considered (sr_vol c) (swapped sm) in
+    ((sr_on c = true /\ sr_min c <= len L /\ sr_vol c <= rv e0 /\ sr_fail (sr_stdev c) L e0 = true) \/
+     (fp_on c = true /\ fp_vol c <= rv e0 /\ fp_fail (fp_thr c) e0 = true)).
+Proof.
+  intros st st' Hf Hfind Hej. destruct (fired_pre K st op c sm (reach_tinv K ops) Hf) as [Es [Hlt _]].
+  unfold st' in *. rewrite Es in *. rewrite fire_now in Hej.
+  destruct (fire_ejected c sm id e' Hlt Hfind Hej) as [e0 [H0 [Hc _]]].
+  exists e0. split; [exact H0 | apply crit_any_spec; exact Hc].
+Qed.
+
+Lemma hist_no_ejection_at_or_above_max K ops op c sm id e' :
+  let st := final K init ops in let st' := step K st op in
+  fired K st op = Some (c, sm) ->
+  find id (eps st') = Some e' -> ej e' = Some (now st') ->
+  share_ge (numej sm) (len (eps sm)) (maxpct c) = false /\
+  numej sm = count_ej (eps sm) + gD st.
+Proof.
+  intros st st' Hf Hfind Hej. destruct (fired_pre K st op c sm (reach_tinv K ops) Hf) as [Es [Hlt _]].
+  split; [|eapply fired_acct; eauto using reach_inv].
+  unfold st' in *. rewrite Es in *. rewrite fire_now in Hej.
+  destruct (fire_ejected c sm id e' Hlt Hfind Hej) as [e0 [_ [_ Hs]]]. exact Hs.
+Qed.
+
+Lemma hist_uneject_time K ops op c sm id e t0 :
+  let st := final K init ops in let st' := step K st op in
+  fired K st op = Some (c, sm) ->
+  find id (eps sm) = Some e -> ej e = Some t0 ->
+  exists e', find id (eps st') = Some e' /\
+    match ej e' with
+    | None => t0 + eject_span c (mult e') < now st'
+    | Some x => x = now st' \/
+                (x = t0 /\ mult e' = mult e /\ now st' <= t0 + eject_span c (mult e))
+    end.
+Proof.
+  intros st st' Hf Hfind Hej. destruct (fired_pre K st op c sm (reach_tinv K ops) Hf) as [Es [Hlt _]].
+  unfold st'. rewrite Es, fire_now. apply fire_uneject; assumption.
+Qed.
